@@ -23,7 +23,7 @@ import z3
 # on an idle core of this sandbox).
 Z3_RLIMIT = int(os.environ.get("PYVC_Z3_RLIMIT", "30000000"))
 Z3_REFUTE_RLIMIT = int(os.environ.get("PYVC_Z3_REFUTE_RLIMIT", "25000000"))
-Z3_TIMEOUT_MS = int(os.environ.get("PYVC_Z3_MS", "300000"))
+Z3_TIMEOUT_MS = int(os.environ.get("PYVC_Z3_MS", "600000"))
 CLI_TIMEOUT_S = int(os.environ.get("PYVC_CLI_S", "20"))
 
 
